@@ -236,10 +236,16 @@ def find_enum(relpath, name, nth=0):
     return src[m.start():k]
 
 
-def find_initializer(relpath, name):
-    """`... name[...] = { ... };` or `... name = expr;` at any scope: returns the whole declaration."""
+def find_initializer(relpath, name, after=None):
+    """`... name[...] = { ... };` or `... name = expr;` at any scope: returns the whole declaration.
+    `after`: only look behind the first occurrence of that text (a class name, when several classes declare the same member)."""
     src = read_source(relpath)
-    m = re.search(r'[^\n;{}]*\b' + re.escape(name) + r'\s*(\[[^\]]*\])*\s*=\s*', src)
+    start = 0
+    if after:
+        start = src.find(after)
+        if start < 0:
+            raise ExtractError('marker %r not found in %s' % (after, relpath))
+    m = re.compile(r'[^\n;{}]*\b' + re.escape(name) + r'\s*(\[[^\]]*\])*\s*=\s*').search(src, start)
     if not m:
         raise ExtractError('initializer %s not found in %s' % (name, relpath))
     j = m.end()
